@@ -492,6 +492,28 @@ func checkC13(p *Prog, r *Report) {
 	r.Rule("R13.7", "The provisional-lifetime timer of a TCP packet connection is armed only by the constructor and afterwards only stopped: once a handle has claimed the connection, nothing can re-arm the timer that would close it with references outstanding.", 3)
 	checkAliveTimerDiscipline(p, r)
 
+	// ---- R13.9 a woken reader takes the packet it was woken for ---------------------------------------------------
+	r.Rule("R13.9", "Every iteration of udpMuxedConn.readPacket's loop examines the packet queue first: no return is reachable between the loop head and the queue test. One wake-up token is sent per queued packet, so a reader that consumed the token but leaves without looking at the queue (because its own handle was closed or its deadline passed meanwhile) strands the packet, and a sibling handle parked on the same connection is never woken for it.", 1)
+	if f := p.Fn("udpMuxedConn.readPacket"); r.Anchor("udpMuxedConn.readPacket", f != nil) {
+		g := p.CFG(f)
+		var loop *ast.ForStmt
+		walkBody(f, func(x ast.Node) bool {
+			if fs, ok := x.(*ast.ForStmt); ok && loop == nil {
+				loop = fs
+			}
+			return true
+		})
+		if loop == nil || len(loop.Body.List) == 0 {
+			r.Fail("readPacket: the wait loop", p.Pos(f.Body.Pos()), "the loop was not found")
+		} else if start, ok := g.Locate(loop.Body.List[0]); !ok {
+			r.Unknown("readPacket: the wait loop", p.Pos(loop.Pos()), "first statement of the loop not located in the CFG")
+		} else {
+			isQueueTest := func(n ast.Node) bool { return p.MentionsField(n, "udpMuxedConn.bufTail") }
+			_, escapes := g.PathAvoiding(Loc{start.B, start.I}, isQueueTest, func(b *Block) bool { return b == g.Exit }, nil)
+			r.Check(!escapes, "readPacket examines the queue first in every iteration", p.Pos(loop.Pos()), "no exit between the loop head and the queue test", "a path leaves readPacket from the top of an iteration without examining the queue: a reader woken for a packet can return without dequeuing it or passing the wake-up on")
+		}
+	}
+
 	// ---- R13.8 the write-section protocol never parks ---------------------------------------------------------
 	r.Rule("R13.8", "The functions that operate on the shared write-section state word (enter, leave, abort, clear) contain no operation that can block indefinitely — no channel receive / send, no select without default, no WaitGroup wait: a writer held back by an abort polls the state word and its own context, so the end of an abort needs no wake-up that a writer arriving at the wrong moment could miss (a missed wake-up leaves that user's write stuck although the socket is usable again).", 4)
 	{
